@@ -109,7 +109,7 @@ FlagOf == <<"none", "none", "empty", "own", "bad">>
 RFlag(n) == {FlagOf[RandomElement(1..n)]}   \* (parameterised: TLC evaluates a constant definition only once)
 
 AllNext ==
-  \/ \E v \in Variants : Store(v)
+  \/ \E v \in VariantsAt(scn, Len(chain)) : Store(v)
   \/ Revert
   \/ \E n \in R(Nums) : SetL1Head(n)
   \/ \E n \in R(Nums) : SetL1Head(n)
@@ -137,8 +137,40 @@ AllNext ==
   \/ \E t \in R(DroppedTx) : GetTransactionReceipt(t)
   \/ \E t \in R(DroppedTx) : GetTransactionStatus(t)
 
+(* ---- the section scenarios (scn # "base"): what a reverted block leaves behind ---- *)
+(* a read that can observe the scenario's section, at a block the chain holds, by number, hash or latest *)
+MethodsFor(sc) ==
+  CASE sc \in {"stor", "clear", "zz"} -> {"getStorageAt"}
+    [] sc = "nonce" -> {"getNonce"}
+    [] sc = "repl" -> {"getClassHashAt", "getClassAt"}
+    [] sc = "deploy" -> {"getClassHashAt", "getClassAt", "getNonce", "getStorageAt"}
+    [] sc = "depacc" -> {"getNonce", "getClassHashAt"}
+    [] sc \in {"decl0", "decl1"} -> {"getClass", "getClassAt"}
+    [] OTHER -> {"getStateUpdate"}
+HistProbe ==
+  /\ chain # <<>>
+  /\ \E m \in R(MethodsFor(scn) \cup {"getStateUpdate"}), id \in R(HeldIds \ {TagId("l1_accepted")}),
+        c \in R(Contracts), s \in R(Slots), k \in R(Classes), f \in R({"none", "own"}) :
+       CASE m = "getStorageAt" -> GetStorageAtF(id, c, s, f)
+         [] m = "getNonce" -> GetNonce(id, c)
+         [] m = "getClassHashAt" -> GetClassHashAt(id, c)
+         [] m = "getClassAt" -> GetClassAt(id, c)
+         [] m = "getClass" -> GetClass(id, k)
+         [] OTHER -> GetStateUpdate(id)
+(* scenario behaviours: setup, the block with the section, then forks (Revert, another variant) under
+   reads of the section's observers; now and then anything else *)
+ScnNext ==
+  IF steps < 2 /\ Len(chain) = steps THEN Store(0)
+  ELSE \E d \in R(1..12) :
+         IF d <= 2 /\ Len(chain) < MaxLen THEN \E v \in R(VariantsAt(scn, Len(chain))) : Store(v)
+         ELSE IF d <= 4 /\ Len(chain) > 1 /\ reverts < MaxReverts THEN Revert
+         ELSE IF d = 5 THEN AllNext
+         ELSE IF chain # <<>> THEN HistProbe
+         ELSE Store(0)
+
 (* guidance: most behaviours start by building a chain (reads on the empty chain stay possible) *)
-SimNext == IF steps < 3 /\ RandomElement(1..4) # 1 THEN \E v \in R(Variants) : Store(v)
+SimNext == IF scn # "base" THEN ScnNext
+           ELSE IF steps < 3 /\ RandomElement(1..4) # 1 THEN \E v \in R(VariantsAt(scn, Len(chain))) : Store(v)
            ELSE \E d \in R(1..12) :
                 IF d = 1 /\ chain # <<>> THEN LubProbe
                 ELSE IF d = 2 /\ HeldTx # {} THEN PfProbe
@@ -149,22 +181,60 @@ Step ==
   /\ steps' = steps + 1
   \* want0 / res0: what the same request WITHOUT response_flags must be / is (by the model of the code)
   \* answered: v0.8 / v0.9 are sent that one (a read leaves the database as it is: IRes needs no primes)
-  /\ hist' = Append(hist, [a |-> act', res |-> res', want |-> want', chain |-> chain', l1 |-> l1',
+  /\ hist' = Append(hist, [a |-> act', res |-> res', want |-> want', chain |-> chain', l1 |-> l1', scn |-> scn',
                             want0 |-> IF IsRead(act') /\ "fl" \in DOMAIN act'
                                       THEN DWantIn(chain', l1', Unflag(act')) ELSE NoRes,
                             res0 |-> IF IsRead(act') /\ "fl" \in DOMAIN act'
                                      THEN IRes(Unflag(act')) ELSE NoRes])
 
-Emit ==
-  /\ PrintT(ToJson(hist))
-  /\ chain' = <<>> /\ height' = -1
+(* the alphabet of the next behaviour: the base alphabet in half of them, else one of the section scenarios *)
+ScnPick(n) == IF Scenarios = {"base"} \/ ("base" \in Scenarios /\ RandomElement(1..n) = 1) THEN {"base"}
+              ELSE {RandomElement(Scenarios \ {"base"})}
+Reset(sc) ==
+  /\ chain' = <<>> /\ height' = -1 /\ scn' = sc
   /\ byNum' = [n \in Nums |-> NoPath]
   /\ numByHash' = [h \in HashIds |-> -1]
   /\ txIdx' = [t \in AllTx \cup {BogusTx} |-> NoIdx]
-  /\ slog' = [k \in SlotKeys |-> {}] /\ llog' = [k \in SlotKeys |-> {}]
+  /\ nh' = EmptyH /\ lh' = EmptyH
   /\ l1' = -1 /\ seen' = {} /\ reverts' = 0
-  /\ act' = [name |-> "Init"] /\ res' = NoRes /\ want' = NoRes
+  /\ act' = [name |-> "Init"] /\ res' = NoRes /\ want' = NoRes /\ resL' = NoRes
   /\ hist' = <<>> /\ steps' = 0
+Emit ==
+  /\ PrintT(ToJson(hist))
+  /\ \E sc \in ScnPick(2) : Reset(sc)
 
 MBTNext == IF steps >= MaxSteps THEN Emit ELSE Step
+
+(* ---- directed scripts: the WALK.  One deterministic behaviour per scenario: the setup block, then a
+   depth-first walk over EVERY chain of the scenario's alphabet (Store = go down, Revert = come back), in
+   the variant order 0, 1, 2 - so that the block with section S for target 1 is reverted and replaced by
+   "S for target 2" and then by the empty block, each followed by S / S for target 2 / nothing at the next
+   height, and the same one height up.  After every mutator ProbesPerOp reads of the section's observers
+   (the replayer adds its own sweep of every height by number and hash after every mutator). *)
+CONSTANT ProbesPerOp
+RECURSIVE WalkFrom(_)
+Cat3(f(_)) == f(0) \o (IF NVar > 1 THEN f(1) ELSE <<>>) \o (IF NVar > 2 THEN f(2) ELSE <<>>)
+WalkFrom(len) ==
+  IF len >= MaxLen THEN <<>>
+  ELSE LET sub(v) == <<[op |-> "S", v |-> v]>> \o WalkFrom(len + 1) \o <<[op |-> "R", v |-> -1]>>
+       IN Cat3(sub)
+Walk == <<[op |-> "S", v |-> 0]>> \o WalkFrom(1)
+ScnOrder == <<"stor", "clear", "zz", "nonce", "repl", "deploy", "depacc", "decl0", "decl1", "mig">>
+ScnSeq == SelectSeq(ScnOrder, LAMBDA x : x \in Scenarios)
+ScnAfter(sc) == LET i == CHOOSE i \in 1..Len(ScnSeq) : ScnSeq[i] = sc IN ScnSeq[(i % Len(ScnSeq)) + 1]
+WalkInit == MBTInit /\ scn = ScnSeq[1]
+WalkStep ==
+  LET pc == (steps \div (ProbesPerOp + 1)) + 1
+      o == Walk[pc]
+  IN /\ IF steps % (ProbesPerOp + 1) = 0
+        THEN (IF o.op = "S" THEN Store(o.v) ELSE Revert)
+        ELSE HistProbe
+     /\ steps' = steps + 1
+     /\ hist' = Append(hist, [a |-> act', res |-> res', want |-> want', chain |-> chain', l1 |-> l1', scn |-> scn',
+                               want0 |-> IF IsRead(act') /\ "fl" \in DOMAIN act'
+                                         THEN DWantIn(chain', l1', Unflag(act')) ELSE NoRes,
+                               res0 |-> IF IsRead(act') /\ "fl" \in DOMAIN act'
+                                        THEN IRes(Unflag(act')) ELSE NoRes])
+WalkEmit == PrintT(ToJson(hist)) /\ Reset(ScnAfter(scn))
+WalkNext == IF steps >= Len(Walk) * (ProbesPerOp + 1) THEN WalkEmit ELSE WalkStep
 =============================================================================
